@@ -52,7 +52,8 @@ requires it); append_debug_encoded_string's output format (never parsed back) be
 import functools
 
 from ..charset import (Bits, CODEPOINTS, EMPTY, ISet, Pred, Unsupported, char_truth_bytes, field_vec, int_type, never_modified, unique_def_resolver, ZERO, ONE, W)
-from ..c14_util import (BYTES, Broken, block_paths, char_guard_set, char_reads, decisions, deref_leaf, elems_on, ends_in_throw, guards, is_var,
+from ..c14_util import (BYTES, Broken, block_paths, byte_states, char_guard_set, char_leaf, char_aliases, cursor_lvalue, cursor_text, decisions, depends_on,
+                        elems_on, ends_in_throw, guards, is_current_char, is_var, lvalue_modifications, make_callee_summary, valid_copies,
                         local_init, modifications, one, string_literal, string_out_calls, var_guard_set, vars_in)
 from ..flow import path_search
 
@@ -158,9 +159,10 @@ class WriterModel(object):
             raise Broken('%s: expected one verbatim append, >=1 hex emitter calls and frame characters (found %d/%d/%d)'
                          % (WR, len(self.verbatim), len(self.emitters), len(self.frames)))
         dom = CODEPOINTS
-        self.P = var_guard_set(fn, self.verbatim[0]['id'], self.d_c, dom)
-        self.E = [(e, var_guard_set(fn, e['id'], self.d_c, dom)) for e in self.emitters]
-        self.F = [(f, var_guard_set(fn, f['id'], self.d_c, dom)) for f in self.frames]
+        res = unique_def_resolver(fn)
+        callee = make_callee_summary(fb)
+        self.P = var_guard_set(fn, self.verbatim[0]['id'], self.d_c, dom, res, callee)
+        self.E = [(e, var_guard_set(fn, e['id'], self.d_c, dom, res, callee)) for e in self.emitters]
 
     def iteration_paths(self):
         """Event sequences of one loop iteration after the decode: [[('verbatim'|'frame'|'emit', node)...]...]"""
@@ -199,21 +201,21 @@ class ReaderModel(object):
                 d_res = p['d']
         if d_res is None:
             raise Broken('%s: result parameter not recognised' % PSTR)
+        self.ps_text = cursor_text(fn)
         copies = []
         for (n, kind) in string_out_calls(fn, d_res):
-            if kind == 'member' and n.get('q') in STR_APPENDERS and len(n.get('args', [])) == 1:
-                reads = char_reads(fn, n['args'][0])
-                a = fn.sn(n['args'][0])
-                if len(reads) == 1 and a is not None and a.get('k') == 'unop' and a.get('op') == '*':
-                    copies.append((n, list(reads)[0]))
-                    continue
+            if kind == 'member' and n.get('q') in STR_APPENDERS and len(n.get('args', [])) == 1 and is_current_char(fn, n['args'][0], n['id'], self.ps_text):
+                copies.append(n)
+                continue
             raise Broken('%s: unrecognised write to the result string: %s' % (PSTR, fn.expr(n['id'])))
         if len(copies) != 1:
-            raise Broken('%s: expected exactly one verbatim copy `result += *cursor`' % PSTR)
-        self.copy, self.ps_text = copies[0]
+            raise Broken('%s: expected exactly one verbatim copy `result += <byte under the cursor>`' % PSTR)
+        self.copy = copies[0]
         self.V, used_v = char_guard_set(fn, self.copy['id'], self.ps_text)
-        self.ps_cursor = fn.root_var(char_reads(fn, self.copy['args'][0])[self.ps_text])
-        if self.ps_cursor is None or self.ps_cursor[0] != 'var':
+        self.ps_ptext = cursor_lvalue(fn, self.ps_text)
+        self.ps_cursor = next((('var', x['d'], x['name']) for x in fn.all_nodes() if x.get('k') == 'var' and x.get('vk') in ('local', 'param')
+                               and x['name'] == self.ps_ptext), None)
+        if self.ps_cursor is None:
             raise Broken('%s: cursor not recognised' % PSTR)
         esc = list(fn.calls(qname=PESC))
         if len(esc) != 1:
@@ -230,14 +232,11 @@ class ReaderModel(object):
         if v is None or v.get('k') != 'var' or v.get('vk') != 'local':
             raise Broken('%s: first argument of %s is not a local accumulator' % (PESC, ENCODE))
         self.d_value = v['d']
-        reads = set()
-        for (C, _g, _t, _f, _x) in decisions(fe):
-            reads |= set(char_reads(fe, C))
-        if len(reads) != 1:
-            raise Broken('%s: expected the decisions to read one cursor, found %s' % (PESC, sorted(reads)))
-        self.pe_text = list(reads)[0]
-        self.pe_cursor = fe.root_var(next(x for x in (char_reads(fe, C).get(self.pe_text) for (C, _g, _t, _f, _x) in decisions(fe)) if x))
-        if self.pe_cursor is None or self.pe_cursor[0] != 'var':
+        self.pe_text = cursor_text(fe)
+        self.pe_ptext = cursor_lvalue(fe, self.pe_text)
+        self.pe_cursor = next((('var', x['d'], x['name']) for x in fe.all_nodes() if x.get('k') == 'var' and x.get('vk') in ('local', 'param')
+                               and x['name'] == self.pe_ptext), None)
+        if self.pe_cursor is None:
             raise Broken('%s: cursor not recognised' % PESC)
         self.T = _consumed_before(fe, enc[0]['id'], self.pe_text, self.pe_cursor[1])
         self.adds, self.shifts, self.other_mods = [], [], []
@@ -260,8 +259,9 @@ class ReaderModel(object):
             return None
         n = hits[0][0]
         vals = set()
+        leaf = char_leaf(self.pe_text, valid_copies(self.pe, n['id'], self.pe_text))
         for sg, dom in ((True, byte - 256 if byte >= 128 else byte), (False, byte)):
-            p = Pred(self.pe, deref_leaf(self.pe_text), ISet.of(dom), None, char_signed=sg)
+            p = Pred(self.pe, leaf, ISet.of(dom), None, char_signed=sg)
             vals.add(p.value_at(n['rhs'], dom))
         if len(vals) != 1:
             return None
@@ -351,34 +351,26 @@ def _delimiter_sources(fb, rm):
             out.append(('%s#opl_parse_char:%s' % (fn.q, _ch(v & 0xff)), fn.loc(c['id']), ISet.of(v & 0xff), 'separator expected by %s' % fn.name))
     if n == 0:
         raise Broken('no opl_parse_char call found next to opl_parse_string')
-    # section terminators
-    for q, want_true in ((NS + 'opl_non_empty', False), (NS + 'opl_parse_space', True)):
-        fn = one(fb, q)
-        sets = []
-        if not want_true:
-            rets = [x for x in fn.all_nodes() if x.get('k') == 'return' and 'sub' in x]
-            if len(rets) != 1:
-                raise Broken('%s: expected a single return expression' % q)
-            reads = char_reads(fn, rets[0]['sub'])
-            if len(reads) != 1:
-                raise Broken('%s: expected one char read' % q)
-            text = list(reads)[0]
-            sets.append((BYTES - char_truth_bytes(fn, rets[0]['sub'], deref_leaf(text)), fn.loc(rets[0]['id'])))
-        else:
-            # bytes under which the cursor is advanced
-            adv = [x for x in fn.all_nodes() if x.get('k') == 'unop' and x['op'] == '++']
-            if not adv:
-                raise Broken('%s: no cursor advance found' % q)
-            loopconds = [b['cond'] for b in fn.blocks.values() if b.get('termcls') in ('DoStmt', 'WhileStmt', 'ForStmt') and 'cond' in b]
-            if len(loopconds) != 1:
-                raise Broken('%s: expected one loop' % q)
-            reads = char_reads(fn, loopconds[0])
-            if len(reads) != 1:
-                raise Broken('%s: expected one char read' % q)
-            text = list(reads)[0]
-            sets.append((char_truth_bytes(fn, loopconds[0], deref_leaf(text)), fn.loc(loopconds[0])))
-        for (S, site) in sets:
-            out.append(('%s#section-delimiters' % q, site, S, 'section delimiters of %s' % fn.name))
+    # section terminators: bytes for which opl_non_empty answers false; bytes that opl_parse_space consumes
+    fn = one(fb, NS + 'opl_non_empty')
+    text = cursor_text(fn)
+    D = EMPTY
+    rets = [x for x in fn.all_nodes() if x.get('k') == 'return' and 'sub' in x]
+    if not rets:
+        raise Broken('%s: no return found' % fn.q)
+    for r in rets:
+        st, _u = char_guard_set(fn, r['id'], text)
+        D = D | (st - char_truth_bytes(fn, r['sub'], char_leaf(text, valid_copies(fn, r['id'], text))))
+    out.append(('%s#section-delimiters' % fn.q, fn.loc(rets[0]['id']), D, 'section delimiters of %s' % fn.name))
+    fn = one(fb, NS + 'opl_parse_space')
+    text = cursor_text(fn)
+    adv = [m for m in lvalue_modifications(fn, cursor_lvalue(fn, text)) if fn.nodes[m].get('k') == 'unop' and fn.nodes[m]['op'] == '++']
+    if not adv:
+        raise Broken('%s: no cursor advance found' % fn.q)
+    D = EMPTY
+    for m in adv:
+        D = D | char_guard_set(fn, m, text)[0]
+    out.append(('%s#section-delimiters' % fn.q, fn.loc(adv[0]), D, 'section delimiters of %s' % fn.name))
     # line splitter
     found = False
     for fn in fb.fns(NS + 'line_by_line'):
@@ -1329,36 +1321,22 @@ def advance_rules(fb, R):
     for q in (PSTR, PESC, XMLENC):
         try:
             fn = one(fb, q)
-            # cursors: pointer variables read as bytes in some decision
-            texts = {}
-            for b in fn.blocks.values():
-                if 'cond' in b:
-                    for t, x in char_reads(fn, b['cond']).items():
-                        texts[t] = x
-            cursors = {}
-            for t, x in texts.items():
-                rv = fn.root_var(x)
-                un = fn.nodes[x]
-                if rv is not None and rv[0] == 'var' and is_var(fn, un['sub'], rv[1]):
-                    cursors[rv[1]] = t
-            if not cursors:
-                raise Broken('%s: no byte cursor found' % q)
+            text = cursor_text(fn)
             n = 0
-            for d, text in cursors.items():
-                for m in modifications(fn, d):
-                    x = fn.nodes[m]
-                    if x.get('k') == 'unop' and x['op'] == '++':
-                        n += 1
-                        S, _u = char_guard_set(fn, m, text)
-                        key = '%s#%s' % (q, _advance_role(fn, m, S))
-                        R.check(0 not in S, rule, key, fn.loc(m),
-                                'the cursor is advanced although the byte under it may be the terminating NUL (bytes possible here: %s)' % S.fmt())
-                    elif x.get('k') == 'unop' and x['op'] == '&':
-                        continue      # handed to a callee that is checked on its own (opl_parse_escaped)
-                    elif x.get('k') == 'assign' and x['op'] == '=':
-                        continue      # (re)initialisation
-                    else:
-                        R.bad(rule, '%s#other-cursor-change' % q, fn.loc(m), 'the cursor is changed by %s' % fn.expr(m))
+            for m in lvalue_modifications(fn, cursor_lvalue(fn, text)):
+                x = fn.nodes[m]
+                if x.get('k') == 'unop' and x['op'] == '++':
+                    n += 1
+                    S, _u = char_guard_set(fn, m, text)
+                    key = '%s#%s' % (q, _advance_role(fn, m, S))
+                    R.check(0 not in S, rule, key, fn.loc(m),
+                            'the cursor is advanced although the byte under it may be the terminating NUL (bytes possible here: %s)' % S.fmt())
+                elif x.get('k') == 'unop' and x['op'] == '&':
+                    continue      # handed to a callee that is checked on its own (opl_parse_escaped)
+                elif x.get('k') == 'assign' and x['op'] == '=':
+                    continue      # (re)initialisation
+                else:
+                    R.bad(rule, '%s#other-cursor-change' % q, fn.loc(m), 'the cursor is changed by %s' % fn.expr(m))
             if n == 0:
                 raise Broken('%s: no cursor advance found' % q)
         except (Broken, Unsupported) as e:
